@@ -7,6 +7,7 @@ import (
 	"math"
 	"math/rand"
 	"strconv"
+	"strings"
 	"testing"
 	"time"
 	"unicode/utf16"
@@ -40,7 +41,7 @@ func TestVal(t *testing.T) {
 	for _, s := range []string{"0", "-0", "1", "1.5", "1e21", "1e-7", "123456789012345678901234567890", "0.1", "0.30000000000000004", "5e-324", "2.5e-324", "2.4703282292062327e-324", "2.4703282292062328e-324", "1.7976931348623157e308", "1.7976931348623159e308", "1e309", "1e-400", "9007199254740993", "9007199254740992.5", "4.35", "0.000001", "1e400", ".5", "5.", "00012", "1E3", "1e+3", "1e-3", "-1.25e2"} {
 		add(s)
 	}
-	for i := 0; i < 3000; i++ {
+	for i := 0; i < 300; i++ {
 		f := math.Float64frombits(rng.Uint64())
 		if math.IsNaN(f) || math.IsInf(f, 0) {
 			continue
@@ -58,6 +59,27 @@ func TestVal(t *testing.T) {
 			v = 0
 		}
 		enc.Encode(map[string]any{"op": "inttostr", "n": num.Of(v), "r": map[string]any{"s": units(strconv.FormatFloat(v, 'f', -1, 64))}})
+		n++
+	}
+	for i := 0; i < 400; i++ {
+		f := math.Float64frombits(rng.Uint64())
+		if i%4 == 1 {
+			f = float64(rng.Intn(100000)) / float64(int(1)<<uint(rng.Intn(20)))
+		}
+		if i%4 == 2 {
+			f = math.Pow(10, float64(rng.Intn(60)-30)) * float64(1+rng.Intn(99))
+		}
+		if i < 80 {
+			f, _ = strconv.ParseFloat(fmt.Sprintf("1e%d", i-40), 64)
+		}
+		if i >= 80 && i < 120 {
+			f, _ = strconv.ParseFloat(fmt.Sprintf("1e%d", i-100), 64)
+			f = math.Nextafter(f, 0)
+		}
+		if math.IsNaN(f) || math.IsInf(f, 0) {
+			continue
+		}
+		enc.Encode(map[string]any{"op": "numtostr", "n": num.Of(f), "r": map[string]any{"s": units(jsNumStr(f))}})
 		n++
 	}
 	for _, s := range []string{"0", "1", "01", "+1", "1.0", "1e0", "-0", "4294967294", "4294967295", "4294967296", " 1", "", "12345678901", "999999999", "a", "10"} {
@@ -80,4 +102,41 @@ func TestVal(t *testing.T) {
 	if bad > 0 {
 		t.Fail()
 	}
+}
+
+// jsNumStr is a Go reference of ES5 9.8.1 built on strconv's shortest digits.
+func jsNumStr(f float64) string {
+	if f == 0 {
+		return "0"
+	}
+	neg := ""
+	if f < 0 {
+		neg, f = "-", -f
+	}
+	e := strconv.FormatFloat(f, 'e', -1, 64) // d.ddde±xx
+	mant, exps, _ := strings.Cut(e, "e")
+	digits := strings.Replace(mant, ".", "", 1)
+	ex, _ := strconv.Atoi(exps)
+	n := ex + 1
+	k := len(digits)
+	switch {
+	case k <= n && n <= 21:
+		return neg + digits + strings.Repeat("0", n-k)
+	case 0 < n && n <= 21:
+		return neg + digits[:n] + "." + digits[n:]
+	case -6 < n && n <= 0:
+		return neg + "0." + strings.Repeat("0", -n) + digits
+	}
+	sign := "+"
+	if n-1 < 0 {
+		sign = "-"
+	}
+	abs := n - 1
+	if abs < 0 {
+		abs = -abs
+	}
+	if k == 1 {
+		return neg + digits + "e" + sign + strconv.Itoa(abs)
+	}
+	return neg + digits[:1] + "." + digits[1:] + "e" + sign + strconv.Itoa(abs)
 }
